@@ -190,6 +190,7 @@ const (
 	flagEcho = 1
 	flagHold = 2
 	flagGo   = 4 // start the server-side writers from this message callback
+	flagPanic = 8 // the message callback panics at its end
 )
 
 func clientPayload(cid, seq, size, flags, slowMs int) []byte {
